@@ -129,6 +129,11 @@ def run(F, R):
     if 'device::socket::connectionmanager::RingBuffer' in F.adts:
         from .C17 import v6_ring
         guard(R, 'T14', 'ring-buffer', lambda: v6_ring(F, RuleProxy(R, {'V6': 'T14'})))
+    # T15: a capability shorter than the structure overlaid on it (or placed at the end of the BAR) is refused: window admission of the
+    # PCI transport (C11.W1)
+    if any(k.startswith('transport::pci::') for k in F.bodies):
+        from .C11 import w1_admission
+        guard(R, 'T15', 'admission', lambda: w1_admission(F, RuleProxy(R, {'W1': 'T15'})))
     # T12: the token check of pop_used is what ties a device-reported id to the chain a blocking call submitted: the helper passes
     # the token of its own add, never the id the device wrote (C03.E8)
     from .C03 import e8_helper_token
